@@ -5,7 +5,7 @@ From Goit Require Import Bytes Config ConfigFacts.
 From Goit Require Import World Repo BranchFacts ConfigCmdFacts.
 From Goit Require Import Bridge.
 From Goit Require Import Inv.
-From Goit Require CtxFacts.
+From Goit Require CtxFacts PersistFacts CommitFacts SnapshotFacts.
 Import ListNotations.
 
 (* T0 (tie to the source): every regexp literal of the current Go source denotes
@@ -109,8 +109,124 @@ Theorem C20_hostile_config_refused :
     = CfgFile (Some [(str "user", [(str "name", str "ok name")])]).
 Proof. exact hostile_config_refused_summary. Qed.
 
+(* ---------- Part 3: over histories, for EVERY accepted `config` call ---------- *)
+(* `config` refuses (exit 1, nothing written or created, in every world) a key
+   part with an '=' or a TAB in it or with white space around it: the loader
+   (tabs removed, line split at the first '=', both sides trimmed) would read
+   it back as ANOTHER key, whose value the call would overwrite *)
+Theorem C20_ambiguous_key_refused : forall e g key value sec k w,
+  split_all x2e key = [sec; k] ->
+  In x3d k \/ In c_tab k \/ trim_space k <> k ->
+  step (ACmd e (CConfig g [key; value])) w = (w, OErr, []).
+Proof. exact config_ambiguous_key_refused. Qed.
+
+(* hence the key of an accepted call is read back as itself *)
+Theorem C20_accepted_key_is_read_back_as_itself : forall e glob key v w0 w1 out tr sec k,
+  split_all x2e key = [sec; k] ->
+  step (ACmd e (CConfig glob [key; v])) w0 = (w1, OOk out, tr) ->
+  ok_key k /\ PersistFacts.eff_key k v = k.
+Proof. exact PersistFacts.accepted_config_key_ok. Qed.
+
+(* setting one key never loses or alters another key or section of the same
+   file, and never touches the other file: for EVERY `config` call answered Ok
+   on a reachable repository, whatever its arguments.  [setting glob w s k] is
+   what the next process finds under <s>.<k> in ~/.goitconfig (glob = true) or
+   .goit/config; the value found under the key just set is the value given,
+   as the loader reads it back (no final CR, no TABs, no white space around) *)
+Theorem C20_one_key_never_alters_another : forall e glob key v w0 w1 out tr sec k,
+  Reachable w0 -> split_all x2e key = [sec; k] ->
+  step (ACmd e (CConfig glob [key; v])) w0 = (w1, OOk out, tr) ->
+  (forall s' k', (s', k') <> (sec, k) ->
+     PersistFacts.setting glob w1 s' k' = PersistFacts.setting glob w0 s' k') /\
+  PersistFacts.setting glob w1 sec k = Some (PersistFacts.eff_val k v) /\
+  PersistFacts.eff_val k v = trim_space (remove_tabs (drop_cr v)) /\
+  (forall s', PersistFacts.has_section glob w0 s' -> PersistFacts.has_section glob w1 s') /\
+  PersistFacts.file_of (negb glob) w1 = PersistFacts.file_of (negb glob) w0.
+Proof. exact PersistFacts.config_never_alters_another_key. Qed.
+
+(* a value of the C20 domain is read back as it was given *)
+Theorem C20_value_read_back : forall k v, ok_key k -> ok_val v -> PersistFacts.eff_val k v = v.
+Proof. exact PersistFacts.eff_val_ok. Qed.
+
+(* an accepted setting is still there after ANY later history (commands,
+   edits, refused calls) that does not set the same key of the same file again:
+   [no_reconfig glob sec k h] says that no `config` call of [h] whose arguments
+   pass the guard of the command names file [glob], section [sec], key [k] *)
+Theorem C20_setting_persists : forall e glob key v sec k w0 w1 out tr h,
+  Reachable w0 -> split_all x2e key = [sec; k] ->
+  step (ACmd e (CConfig glob [key; v])) w0 = (w1, OOk out, tr) ->
+  PersistFacts.no_reconfig glob sec k h = true ->
+  PersistFacts.setting glob (run h w1) sec k = Some (PersistFacts.eff_val k v).
+Proof. exact PersistFacts.setting_persists. Qed.
+
+(* ... and every other key of either file is, after the call and that history,
+   what it was before the call, unless the history sets it *)
+Theorem C20_other_settings_persist : forall e glob key v sec k w0 w1 out tr h g' s' k',
+  Reachable w0 -> split_all x2e key = [sec; k] ->
+  step (ACmd e (CConfig glob [key; v])) w0 = (w1, OOk out, tr) ->
+  (g', s', k') <> (glob, sec, k) ->
+  PersistFacts.no_reconfig g' s' k' h = true ->
+  PersistFacts.setting g' (run h w1) s' k' = PersistFacts.setting g' w0 s' k'.
+Proof. exact PersistFacts.other_settings_persist. Qed.
+
+(* the identity later commands work with is the LAST one configured: after an
+   accepted local `config user.<key> <v>` and any history without another
+   local `config user.<key>` (global calls are unrestricted: local wins), the
+   context of the next command yields that value under <key>; after an
+   accepted global one, in a repository without a local user.<key>, and any
+   history with neither a global nor a local `config user.<key>`, likewise *)
+Theorem C20_identity_is_the_last_configured :
+  (forall e fullkey key v w0 w1 out tr h x,
+     Reachable w0 -> split_all x2e fullkey = [s_user; key] ->
+     step (ACmd e (CConfig false [fullkey; v])) w0 = (w1, OOk out, tr) ->
+     PersistFacts.no_reconfig false s_user key h = true ->
+     ctx_of (run h w1) = Some x ->
+     ident_get (x_l x) (x_g x) key = Some (trim_space (remove_tabs (drop_cr v)))) /\
+  (forall e fullkey key v w0 w1 out tr h x,
+     Reachable w0 -> split_all x2e fullkey = [s_user; key] ->
+     PersistFacts.setting false w0 s_user key = None ->
+     step (ACmd e (CConfig true [fullkey; v])) w0 = (w1, OOk out, tr) ->
+     PersistFacts.no_reconfig true s_user key h = true ->
+     PersistFacts.no_reconfig false s_user key h = true ->
+     ctx_of (run h w1) = Some x ->
+     ident_get (x_l x) (x_g x) key = Some (trim_space (remove_tabs (drop_cr v)))).
+Proof.
+  exact (conj PersistFacts.local_identity_persists_any PersistFacts.global_identity_persists_any).
+Qed.
+
+(* ... and it is the identity `log` shows: `config user.name N`, a history,
+   `config user.email E`, a history, `commit -m msg`, with no other local
+   `config user.name` / `config user.email` in between: the commit succeeds and
+   `log` shows N, E, the instant and the offset of the `commit` call and
+   exactly [msg], at once and after any later history
+   ([PersistFacts.commit_logged]) *)
+Theorem C20_log_shows_the_configured_identity :
+  forall eN N eE E w0 w1 w2 outN trN outE trE h1 h2 e msg c,
+  Reachable w0 -> ok_val N -> ok_val E ->
+  step (ACmd eN (CConfig false [str "user.name"; N])) w0 = (w1, OOk outN, trN) ->
+  Forall action_ok h1 -> PersistFacts.no_reconfig false s_user PersistFacts.k_name h1 = true ->
+  step (ACmd eE (CConfig false [str "user.email"; E])) (run h1 w1) = (w2, OOk outE, trE) ->
+  Forall action_ok h2 ->
+  PersistFacts.no_reconfig false s_user PersistFacts.k_name h2 = true ->
+  PersistFacts.no_reconfig false s_user PersistFacts.k_email h2 = true ->
+  ctx_of (run h2 w2) = Some c -> CommitCmdFacts.gate_open (run h2 w2) c ->
+  CommitFacts.sign_ok N E (e_time e) (e_off e) ->
+  w_coll (step_w (ACmd e (CCommit msg)) (run h2 w2)) = false ->
+  SnapshotFacts.SmallStore (w_objs (step_w (ACmd e (CCommit msg)) (run h2 w2))) ->
+  user_name (x_l c) (x_g c) = N /\ user_email (x_l c) (x_g c) = E /\
+  PersistFacts.commit_logged e msg (run h2 w2) c N E.
+Proof. exact PersistFacts.log_shows_configured_identity. Qed.
+
 Print Assumptions C20_config_files_always_load.
 Print Assumptions C20_hostile_config_refused.
+Print Assumptions C20_ambiguous_key_refused.
+Print Assumptions C20_accepted_key_is_read_back_as_itself.
+Print Assumptions C20_one_key_never_alters_another.
+Print Assumptions C20_value_read_back.
+Print Assumptions C20_setting_persists.
+Print Assumptions C20_other_settings_persist.
+Print Assumptions C20_identity_is_the_last_configured.
+Print Assumptions C20_log_shows_the_configured_identity.
 Print Assumptions C20_roundtrip_any_order.
 Print Assumptions C20_set_then_load.
 Print Assumptions C20_local_first.
